@@ -552,6 +552,14 @@ func runSession(s spec) *transcript {
 		}
 		switch s.traffic {
 		case 0:
+			if s.fault == 3 && i == s.faultAt {
+				// this session's client misbehaves: a text message cut inside a character. Its server refuses it - and
+				// that is this session's business only
+				bad := append([]byte("text cut inside a character: caf"), 0xc3)
+				err = ws.WriteFrame(conn, ws.MaskFrameInPlace(ws.NewTextFrame(bad)))
+				t.add("C sent invalid text")
+				break
+			}
 			if i%3 == 2 {
 				// header + streaming mask writer (its scratch buffers come from the shared byte pool)
 				h := ws.Header{Fin: true, OpCode: op, Masked: true, Mask: ws.NewMask(), Length: int64(len(p))}
@@ -779,7 +787,9 @@ func specsFor(c *mon.C, n int, mix int) []spec {
 		if s.server == 0 && i%3 != 2 {
 			s.wss = true // most ws.Upgrader sessions run over TLS with the library's default client configuration
 		}
-		if i%5 == 3 && n > 4 { // one session in five breaks half way
+		if s.traffic == 0 && i%7 == 2 && n > 4 {
+			s.fault, s.faultAt = 3, 1+int(s.seed)%(s.nmsg-1) // its client sends invalid text
+		} else if i%5 == 3 && n > 4 { // one session in five breaks half way
 			s.fault = 1 + (i/5)%2
 			s.faultAt = 1 + int(s.seed)%(s.nmsg-1)
 		}
